@@ -30,12 +30,16 @@ from quansino.operations.displacement import Ball, Box, Rotation, Sphere, Transl
 
 
 class Veto:
-    """user check_move: vetoes the next `n` attempts"""
+    """user check_move: lets the next `skip` consultations pass, then vetoes the following `n`"""
 
     def __init__(self):
         self.n = 0
+        self.skip = 0
 
     def __call__(self, *_a, **_k):
+        if self.skip > 0:
+            self.skip -= 1
+            return True
         if self.n > 0:
             self.n -= 1
             return False
@@ -90,8 +94,10 @@ def random_labels(rs, n, molecular, allow_negative=True):
         lab = lab * rs.choice([1, 2, 3]) + rs.choice([0, 0, 4])
     else:
         lab = rs.permutation(n) * rs.choice([1, 1, 2]) + rs.choice([0, 0, 3])
-    if allow_negative and n > 2 and rs.rand() < 0.4:
+    if allow_negative and n > 2 and rs.rand() < 0.5:
         lab[rs.randint(n)] = -1
+        if n > 3 and rs.rand() < 0.5:
+            lab[rs.randint(n)] = int(rs.choice([-2, -3, -7]))  # several distinct do-not-touch labels
     return lab
 
 
@@ -107,7 +113,7 @@ class Scenario:
 
     def veto_active(self):
         """did the user's check_move veto anything since the last yield (or is a veto still pending)?"""
-        return any(v.n != getattr(v, "n_at_yield", 0) or v.n > 0 for _, v in self.vetoes)
+        return any(v.n != getattr(v, "n_at_yield", 0) or v.n > 0 or v.skip > 0 for _, v in self.vetoes)
 
     def controller(self, name):
         """at every yield"""
@@ -122,7 +128,8 @@ class Scenario:
             calc.next_delta = (-30.0 * T) if rs.rand() < 0.5 else (300.0 * T)
         for m, v in self.vetoes:
             r = rs.rand()
-            v.n = 0 if r < 0.6 else (1 if r < 0.8 else (2 if r < 0.9 else 10**6))
+            v.n = 0 if r < 0.5 else (1 if r < 0.65 else (2 if r < 0.75 else (3 if r < 0.85 else 10**6)))
+            v.skip = 0 if rs.rand() < 0.6 else int(rs.randint(1, 4))  # e.g. first element of a composite passes, a later one is refused
             v.n_at_yield = v.n
         # occasional pre-selection by the "user"
         from project import elementary_moves
@@ -169,7 +176,7 @@ def build(seed: int, family: str | None = None) -> Scenario:
         cons = []
         if rs.rand() < 0.4:
             cons.append(FixAtoms(indices=sorted(rs.choice(n, size=rs.randint(1, max(2, n - 1)), replace=False).tolist())))
-        elif rs.rand() < 0.25:
+        elif rs.rand() < 0.5:
             cons.append(FixCom())
         if cons:
             atoms.set_constraint(cons)
@@ -181,7 +188,7 @@ def build(seed: int, family: str | None = None) -> Scenario:
         nm = int(rs.randint(1, 3))
         for k in range(nm):
             d = RecDisp(random_labels(rs, n, molecular), disp_op(rs, molecular))
-            attach_veto(sc, d, 0.4)
+            attach_veto(sc, d, 0.6)
             shape = rs.randint(5)
             if shape == 0:
                 mv = d
@@ -287,7 +294,7 @@ def build(seed: int, family: str | None = None) -> Scenario:
         attach_veto(sc, e, 0.3)
         if rs.rand() < 0.4:
             e.default_label = int(rs.choice([0, -1, 7, 2]))
-        shape = rs.randint(6)
+        shape = rs.randint(7)
         if shape <= 1:
             mc.add_move(e, name="exch")
         elif shape == 2:
@@ -298,9 +305,17 @@ def build(seed: int, family: str | None = None) -> Scenario:
         elif shape == 4:
             mc.add_move(e, name="exch")
             mc.add_move(e, name="exch_again", probability=0.5)
-        else:
+        elif shape == 5:
             mc.add_move(e, name="exch")
             mc.add_move(e * 2, criteria=GrandCanonicalCriteria(), name="exch2", probability=0.5)
+        else:
+            # identity swap: a generic composite of a deleting and an inserting exchange move (one trial deletes AND inserts)
+            from quansino.moves.composite import CompositeMove
+
+            e_del = RecExch(lab.copy(), Translation() if not molecular else TranslationRotation(), bias_towards_insert=0.0)
+            e_ins = RecExch(lab.copy(), Translation() if not molecular else TranslationRotation(), bias_towards_insert=1.0)
+            mc.add_move(CompositeMove([e_del, e_ins]), criteria=GrandCanonicalCriteria(), name="swap")
+            mc.add_move(e, name="exch", probability=0.5)
         if rs.rand() < 0.7:
             d = RecDisp(lab.copy(), disp_op(rs, molecular))
             attach_veto(sc, d, 0.3)
